@@ -132,7 +132,7 @@ func c02Arith(ctx *Ctx, a, b cty.Value) {
 		}
 		if ex.IsInt() && uint(ex.Num().BitLen()) <= maxPrec {
 			rr, _ := res.AsBigFloat().Rat(nil)
-			if rr.Cmp(ex) != 0 {
+			if rr == nil || rr.Cmp(ex) != 0 { // rr == nil: an infinite result where the exact one is a finite integer
 				ctx.Fail(Failure{Site: "arith-exact-int", Sig: "exactint:" + op.name, What: "integer result that fits the operand precision is not exact", Input: key, GoLit: lit, Outcome: res.GoString() + " exact " + ex.RatString()})
 			}
 		}
